@@ -87,11 +87,14 @@ class DagEval:
             return mp.ceil(a)
         raise ValueError(op)
 
-    def follows_path(self):
-        """do the values take exactly this path's decisions?"""
+    def follows_path(self, tol=0):
+        """do the values take exactly this path's decisions?  (tol > 0: a comparison whose
+        sides differ by at most tol is accepted either way - used for threshold samples)"""
         try:
             for d in self.path.decisions:
                 a, b = self.node(d.a), self.node(d.b)
+                if tol and abs(a - b) <= tol:
+                    continue
                 v = (a < b) if d.rel == "lt" else (a == b)
                 if bool(v) != d.val:
                     return False
@@ -126,6 +129,12 @@ def gen_values(alg, values):
             vals[name] = mp.cbrt(args[0])
         elif k in ("acos", "asin", "exp", "log", "floor", "ceil"):
             vals[name] = getattr(mp, k)(args[0])
+        elif k == "taylor_rem":
+            a = args[0]
+            if alg.gen_desc[name][0] == "taylor_rem_sin":
+                vals[name] = mp.sin(a) - (a - a ** 3 / 6 + a ** 5 / 120)
+            else:
+                vals[name] = mp.cos(a) - (1 - a ** 2 / 2 + a ** 4 / 24)
         elif k == "free":
             vals[name] = mpf(values[atom.info])
         else:
